@@ -61,22 +61,25 @@ def run(ctx):
 
     # ---- mutation families: layout-descriptor formats and symbolic formats
     cases = os.path.join(ctx.out, "cases_mutate.ndjson")
-    ctx.tlc("untrusted", "Gen_Untrusted", "Gen_Untrusted.ld.%s.cfg" % tier, cases_to=cases, timeout=1500)
-    ctx.tlc("untrusted", "Gen_Untrusted", "Gen_Untrusted.sym.%s.cfg" % tier, cases_to=cases, timeout=1500)
+    ctx.tlc("untrusted", "Gen_Untrusted", "Gen_Untrusted.mut.%s.cfg" % tier, cases_to=cases, timeout=1500)
     if tier == "thorough":
-        ctx.tlc("untrusted", "Gen_Untrusted", "Gen_Untrusted.ld2.thorough.cfg", cases_to=cases, timeout=1500)
+        # two operators in a row (the single-operator product above stays unfactored)
+        ctx.tlc("untrusted", "Gen_Untrusted", "Gen_Untrusted.mut2.thorough.cfg", cases_to=cases, timeout=1500)
     res = ctx.replay("mutate", cases, extra=extra, timeout=3000)
     ctx.judge("mutate", cases, res, extra=extra)
 
-    # ---- enum totality
+    # ---- the value matrices: enum ranges and scaling families (one TLC run, split by kind)
+    mcases = os.path.join(ctx.out, "cases_matrix.ndjson")
+    ctx.tlc("untrusted", "Gen_Untrusted", "Gen_Untrusted.matrix.%s.cfg" % tier, cases_to=mcases)
     ecases = os.path.join(ctx.out, "cases_enum.ndjson")
-    ctx.tlc("untrusted", "Gen_Untrusted", "Gen_Untrusted.enum.cfg", cases_to=ecases)
+    scases = os.path.join(ctx.out, "cases_scale.ndjson")
+    with open(ecases, "w") as fe, open(scases, "w") as fs:
+        for line in ctx.load_cases(mcases):
+            (fs if '"pts":' in line else fe).write(line + "\n")
     res = ctx.replay("enum", ecases, extra=extra)
     ctx.judge("enum", ecases, res, extra=extra)
 
     # ---- linear time: sequential, nothing else running in the replayer
-    scases = os.path.join(ctx.out, "cases_scale.ndjson")
-    ctx.tlc("untrusted", "Gen_Untrusted", "Gen_Untrusted.scale.%s.cfg" % tier, cases_to=scases)
     res = ctx.replay("scale", scases, extra=extra, timeout=3000)
     ctx.judge("scale", scases, res, extra=extra, max_repro=2)
 
@@ -114,7 +117,7 @@ def run(ctx):
     if seed_ok * 2 < seed_total:
         raise vlib.Broken("only %d of %d unmutated seeds were accepted by the decoder the specification names (%s): "
                           "the mutation families would be vacuous" % (seed_ok, seed_total, rejected[:5]))
-    silent = sorted(n for n, d in decoders.items() if d["ok"] == 0)
+    silent = sorted(n for n, d in decoders.items() if d["ok"] == 0 and n != "rtmp.msg.t8")  # t8: a type DecodeMessage never decodes
     if silent:
         raise vlib.Broken("decoders that never accepted any input (the seeds do not reach them): %s" % silent)
     # judge() counted one evaluation per case; the evidence counts calls into the library
